@@ -393,6 +393,10 @@ func packageNameOfDir(dir string, overlay map[string][]byte) (string, error) {
 // FuncKey gives the canonical contract key of an ssa function:
 // "<pkgpath>.Name", "<pkgpath>.(*T).Name", "<pkgpath>.(T).Name", closures "<parent>$n".
 func FuncKey(fn *ssa.Function) string {
+	if o := fn.Origin(); o != nil && o != fn {
+		// instance of a generic function: keyed by its origin
+		return FuncKey(o)
+	}
 	if fn.Parent() != nil {
 		par := fn.Parent()
 		for i, a := range par.AnonFuncs {
